@@ -8,7 +8,7 @@ mkdir -p coq/gen evidence replays
 if [ -f harness/gen_tables.py ]; then /venv/bin/python harness/gen_tables.py; fi
 cd coq
 { echo "-Q . CPL"; echo "-arg -w -arg -notation-overridden,-deprecated-hint-without-locality,-deprecated-instance-without-locality,-ambiguous-paths"; 
-  find Model Proofs Spec Properties Corr -name '*.v' 2>/dev/null | sort; 
+  find Model Proofs Spec Properties Corr -name '*.v' 2>/dev/null | sort | grep -Ev "${SETUP_EXCLUDE_RE:-^$}"; 
   [ -f gen/GenTables.v ] && echo gen/GenTables.v; [ -d GenProps ] && find GenProps -name '*.v' | sort; } > _CoqProject
 coq_makefile -f _CoqProject -o Makefile >/dev/null
 if [ "$1" = "clean" ]; then make clean >/dev/null 2>&1 || true; fi
